@@ -11,5 +11,5 @@ reg(Check(
     ],
     modelled=["the transition system of C04 (subscribe.Server.Subscribe STREAM arm, processSubscription, sendStreamingResults incl. timer arm/expiry, sendSubscribeResponse, MakeSubscribeResponse dup count, Server.Update; cache.Target.GnmiUpdate/gnmiUpdate/gnmiRemove/Reset root deletes; coalesce.Queue abstractly)"],
 ),
-    level_text="Theorems in coq/Props/C08.v state the property over the C04 transition system for ALL schedules and all stall patterns (a stall = the environment not taking a sender's Send-returns step): enabledness and effect of writer steps are functions of the cache and lock fields only; a subscriber's steps depend on the cache and its own record only and change nothing else; queue entries are pairwise distinct items (length <= #leaf handles + #deletes + 1) in every reachable state; duplicate counts are exact for every offer sequence; the timer can fire only while sending and ends that subscription for good. The model is tied to the code by scenario runs on the real server with blocked in-memory Sends (each write followed by waiting until every sender is parked, so the run is one known schedule replayed in Coq) and the executable specification on the implementation's own observations (writes return while a Send is blocked, reported queue lengths within the bound, duplicates = number of coalesced offers = ClientStats.CoalesceCount, only the permanently stalled stream ends with an error, live subscribers converge).",
+    level_text="Theorems in coq/Props/C08.v state the property over the C04 transition system for ALL schedules and all stall patterns (a stall = the environment not taking a sender's Send-returns step): enabledness and effect of writer steps are functions of the cache and lock fields only; a subscriber's steps depend on the cache and its own record only and change nothing else; queue entries are pairwise distinct items (length <= #leaf handles + #deletes + 1) in every reachable state; duplicate counts are exact for every offer sequence; the timer can fire only while sending and ends that subscription for good. The model is tied to the code by scenario runs on the real server with seeded plans of blocked in-memory Sends (several per subscriber, each held for some writes or for ever; every write and every release is followed by waiting until every sender is parked, so the logged steps are a schedule of the transition system, replayed label by label in Coq) and the executable specification on the implementation's own observations (writes return while a Send is blocked, reported queue lengths within the bound, duplicates = number of coalesced offers = ClientStats.CoalesceCount, only the permanently stalled stream ends with an error, live subscribers converge).",
     level_note="Trusted: Coq kernel + vm_compute, the hand-written transition system, the Go harness (goroutine states read from runtime.Stack to know when senders are parked). Real-time bounds are not claimed; the 100 ms timer of the 'dead' family is the only wall-clock dependence.")
